@@ -264,7 +264,13 @@ pub fn run(tier: Tier, rep: &mut Report) -> (String, String) {
             run[nl / 2] = b'x';
             pairs.push((run, rep2));
         }
-        bounds += &format!("long family: needles of 8..={maxn} bytes embedded at offsets 0,1,3,7,8,9, near misses at every position, double and cut-off occurrences, self-overlapping runs ({} pairs); ", pairs.len());
+        // one-byte needles in long haystacks over the needle, its neighbours in value and a filler
+        let ls: Vec<Vec<u8>> = bytes_over(&[b',', b'-', b'a'], tier.pick(9, 10, 0)).into_iter().filter(|h| h.len() >= 8).collect();
+        for h in &ls {
+            pairs.push((h.clone(), vec![b',']));
+            pairs.push((h.clone(), vec![b'-']));
+        }
+        bounds += &format!("long family: needles of 8..={maxn} bytes embedded at offsets 0,1,3,7,8,9, near misses at every position, double and cut-off occurrences, self-overlapping runs, one-byte needles [',', '-'] in all haystacks of 8..=9 bytes (t 10) over [',', '-', 'a'] ({} pairs); ", pairs.len());
         rep.merge(par_each(&pairs, n_threads(tier), |(h, n), r| one_pair(r, h, n)));
     }
     rep.traces = rep.transitions;
